@@ -1,4 +1,88 @@
 import BlochVerif.Eval.Model
+/-!
+# C09 — scoping is lexical
+
+About the evaluator model's environment: `enterFrame` starts a frame of exactly one scope at every call,
+`lookup` and `assignVar` consult only the innermost `frameDepth` scopes.  Hence the scopes of the caller
+(everything below the current frame) can neither influence what a name evaluates to nor be changed by an
+assignment in the callee.  The renaming corollary of the property (consistent renaming of a local never
+changes the output) is checked on the real pipeline and the model by `tools/props/c09.py`; an
+alpha-equivalence theorem for the whole evaluator is not proved (PARTIAL).
+-/
 namespace BlochVerif.Props.C09
-theorem placeholder : True := trivial
+open BlochVerif BlochVerif.Eval BlochVerif.Parse
+
+/-- what a name evaluates to is a function of the current frame only -/
+def frameLookup (frame : List Scope) (name : String) : Value :=
+  match frame.findSome? (fun sc => (sc.find? (·.1 == name)).map (·.2.value)) with
+  | some v => v
+  | none => {}
+
+theorem lookup_is_frameLookup (st : EState) (name : String) :
+    (lookup name).run st = .ok (frameLookup (st.env.take st.frameDepth) name, st) := by
+  unfold lookup frameLookup
+  simp only [StateT.run, bind, StateT.bind, get, getThe, MonadStateOf.get, StateT.get, pure, Except.pure, Except.bind]
+  cases (List.take st.frameDepth st.env).findSome? (fun sc => (sc.find? (·.1 == name)).map (·.2.value)) <;> rfl
+
+/-- A callee never sees its caller's locals: two states whose current frames coincide give every name the
+same value, whatever the scopes below the frame (the caller's, the caller's caller's, …) contain. -/
+theorem callee_never_sees_caller_locals (st1 st2 : EState) (name : String)
+    (h : st1.env.take st1.frameDepth = st2.env.take st2.frameDepth) :
+    ((lookup name).run st1).map (·.1) = ((lookup name).run st2).map (·.1) := by
+  rw [lookup_is_frameLookup, lookup_is_frameLookup, h]
+  rfl
+
+/-- a call starts a frame consisting of one fresh, empty scope: no binding of the caller is in it -/
+theorem call_starts_with_an_empty_frame (st : EState) :
+    ∃ st', enterFrame.run st = .ok (st.frameDepth, st') ∧ st'.env.take st'.frameDepth = [[]] ∧
+      st'.env.drop st'.frameDepth = st.env := by
+  refine ⟨{ st with env := [] :: st.env, frameDepth := 1 }, ?_, by simp, by simp⟩
+  simp [enterFrame, StateT.run, bind, StateT.bind, get, getThe, MonadStateOf.get, StateT.get, set, StateT.set, pure,
+    Except.pure, Except.bind, StateT.pure]
+
+theorem go_length (name : String) (v : Value) : ∀ (l l' : List Scope), assignVar.go name v l = some l' → l'.length = l.length := by
+  intro l
+  induction l with
+  | nil => intro l' h; simp [assignVar.go] at h
+  | cons sc rest ih =>
+    intro l' h
+    simp only [assignVar.go] at h
+    split at h
+    · cases h; simp
+    · cases hg : assignVar.go name v rest with
+      | none => simp [hg] at h
+      | some r => simp [hg] at h; subst h; simp [ih r hg]
+
+/-- A callee never changes its caller's locals: an assignment leaves every scope below the current frame
+exactly as it was. -/
+theorem callee_never_changes_caller_locals (st st' : EState) (name : String) (v : Value)
+    (hd : 1 ≤ st.frameDepth) (hle : st.frameDepth ≤ st.env.length)
+    (h : (assignVar name v).run st = .ok ((), st')) :
+    st'.frameDepth = st.frameDepth ∧ st'.env.drop st'.frameDepth = st.env.drop st.frameDepth := by
+  unfold assignVar at h
+  simp only [StateT.run, bind, StateT.bind, get, getThe, MonadStateOf.get, StateT.get, pure, Except.pure, Except.bind] at h
+  cases hg : assignVar.go name v (List.take st.frameDepth st.env) with
+  | some env' =>
+    simp only [hg, set, StateT.set] at h
+    simp only [pure, Except.pure, Except.ok.injEq, Prod.mk.injEq, true_and] at h
+    subst h
+    have hl := go_length name v _ _ hg
+    simp only [List.length_take] at hl
+    refine ⟨rfl, ?_⟩
+    simp only
+    rw [List.drop_append_of_le_length (by omega), List.drop_eq_nil_of_le (by omega)]
+    simp
+  | none =>
+    simp only [hg, declareVar, modify, modifyGet, MonadStateOf.modifyGet, StateT.modifyGet, pure, Except.pure, Except.ok.injEq,
+      Prod.mk.injEq, true_and] at h
+    subst h
+    cases he : st.env with
+    | nil => simp [he] at hle; omega
+    | cons top rest =>
+      refine ⟨rfl, ?_⟩
+      simp only
+      obtain ⟨d, hd'⟩ : ∃ d, st.frameDepth = d + 1 := ⟨st.frameDepth - 1, by omega⟩
+      rw [hd']
+      simp
+
 end BlochVerif.Props.C09
